@@ -123,8 +123,35 @@ EXTRA_COQ = {
 }
 
 
+def catalogue_programs():
+    """one small program per catalogue entry that has a theorem: the fault sits in the Failed
+    branch of a Condition inside a counting loop of productionTask"""
+    out = {}
+    for fid in ["F01a", "F01b", "F02a", "F03c", "F03d", "F04a", "F04b", "F04f", "F05a", "F16a", "F16b", "F16c",
+                "F16d", "F16e", "F20a", "F20b", "F20c", "F20d", "F13b"]:
+        after, fidx, sub = faults.STMT_FAULTS[fid]
+        inner = [Q] + gen_check.clone(after)
+        body = [("count", False, "w", ("int", 2), [("cond", ("bool", False), [svc(name="Sk")], inner)])]
+        out["f_" + fid] = prog(body, [CALLEE])
+    base = lambda: prog([Q, ("call",) + GOOD_CALL], [CALLEE])
+    p = base(); p["structs"].append(gen_check.clone(p["structs"][1])); p["order"].append(("struct", 2)); out["f_F10a"] = p
+    p = base(); p["tasks"].append(gen_check.clone(p["tasks"][1])); p["order"].append(("task", 2)); out["f_F11a"] = p
+    p = base(); p["structs"][1] = dict(p["structs"][1], attrs=p["structs"][1]["attrs"] + [("n", faults.NUM)]); out["f_F12a"] = p
+    p = base(); p["tasks"].append({"name": "tnew", "ins": [("a", FQ), ("a", FQ)], "body": [svc(name="Sn")], "outs": []})
+    p["order"].append(("task", 2)); out["f_F13a"] = p
+    p = base(); p["tasks"][0] = dict(p["tasks"][0], name="productionTask2"); out["f_F14a"] = p
+    p = base(); p["tasks"].append({"name": "tnew", "ins": [], "body": [svc(name="Sn")], "outs": ["zz"]})
+    p["order"].append(("task", 2)); out["f_F15a"] = p
+    p = base(); p["structs"].append({"name": "Fnew", "attrs": [("a", faults.NUM), ("zz", ("plain", "Nosuch"))]})
+    p["order"].append(("struct", 2)); out["f_F03a"] = p
+    p = base(); p["tasks"].append({"name": "tnew", "ins": [("a", ("plain", "Nosuch"))], "body": [svc(name="Sn")], "outs": []})
+    p["order"].append(("task", 2)); out["f_F03b"] = p
+    return out
+
+
 def write_coq():
     import pfdl_ast
+    EXTRA_COQ.update(catalogue_programs())
     I = pfdl_ast.Interner()
     out = ["(* Witnesses.v — GENERATED by tools/mk_check_witnesses.py from the corpus witnesses of the",
            "   validator findings (corpus/check-*.json) and a few further hand-written programs; the",
